@@ -321,4 +321,18 @@ func init() {
 	}})
 }
 
-var logWeights = Weights{"switch-c-linebreak": 2, "write-new": 10, "modify": 16, "add": 22, "commit": 26, "log": 18, "reset": 6, "switch": 6, "switch-c": 5, "branch": 5, "update-ref": 2, "tz": 1}
+func init() {
+	ops = append(ops, opGen{"odd-ignore-file", always, func(g *G) Step {
+		// "not on the working tree": an ignore list with a very long line, or a DIRECTORY named .goitignore, is
+		// working-tree content like any other and must not change (or prevent) the listing
+		if g.Bool("asDirectory") && !hasFile(g.E.Cur, ".goitignore") {
+			return Step{Op: "write", Path: ".goitignore/inner", Data: []byte("x")}
+		}
+		if g.E.Cur.Work.Dirs[".goitignore"] {
+			return Step{Op: "write", Path: ".goitignore/more", Data: []byte("y")}
+		}
+		return Step{Op: "write", Path: ".goitignore", Data: []byte("build/\n*." + strings.Repeat("x", g.Pick2([]int{65530, 65536, 70000}, "lineLen")) + "\n")}
+	}})
+}
+
+var logWeights = Weights{"odd-ignore-file": 2, "switch-c-linebreak": 2, "write-new": 10, "modify": 16, "add": 22, "commit": 26, "log": 18, "reset": 6, "switch": 6, "switch-c": 5, "branch": 5, "update-ref": 2, "tz": 1}
